@@ -1,11 +1,15 @@
 import LinOp.Core.Parse
 import LinOp.C12.Model
+import LinOp.C12.Classes
 /-! Line-protocol driver for the C12 cache model.
 
   new <profile> <n>                              -> ok            (a fresh object, empty cache)
   q <mcs> <frd> <flp> <fs> <kind> [args]         -> <sorted key set> ; <primitives run | *> ; <tri | ->
   d <mcs> <frd> <flp> <fs> <kind> <profile> <n>  -> P <parent key set> ; N <new object's key set> ; *
   back                                           -> ok            (return to the parent object)
+  wnew <kind> <n> <subprofile>:<n_i>,...         -> ok            (a fresh wrapper of class <kind> over fresh sub-operators)
+  wq <mcs> <frd> <flp> <fs> <self|sub<i>> <kind> [args]
+                                                 -> W <wrapper key set> | S <key set of sub 0> | S <key set of sub 1> …
 -/
 open LinOp LinOp.C12 LinOp.Parse
 
@@ -19,6 +23,7 @@ structure Obj where
 structure DState where
   stack : List Obj
   nextMat : Nat
+  wobj : Option (WKind × Nat × WSt) := none
 
 def profileOf (s : String) : Profile :=
   if s = "base" then .base
@@ -70,6 +75,29 @@ def parseQuery (ws : List String) : Query × Bool :=   -- (query, logs are model
   | ["sample"] => (.sample, false)
   | _ => (.pure, false)
 
+def kindOf (s : String) : Option WKind :=
+  if s = "batchRepeat" then some .batchRepeat
+  else if s = "block" then some .block
+  else if s = "constMul" then some .constMul
+  else if s = "blockInterleaved" then some .blockInterleaved
+  else none
+
+def parseSubs (s : String) : List SubObj :=
+  let parts := s.splitOn ","
+  let rec go (ps : List String) (i : Nat) : List SubObj :=
+    match ps with
+    | [] => []
+    | p :: t =>
+      match p.splitOn ":" with
+      | [pr, n] => ⟨profileOf pr, n.toNat?.getD 0, i + 2, ⟨[], 0, []⟩⟩ :: go t (i + 1)
+      | _ => go t (i + 1)
+  go parts 0
+
+def showW (w : WSt) : String :=
+  "W " ++ showKeys w.self.cache ++ String.join (w.subs.map fun o => " | S " ++ showKeys o.st.cache)
+
+def wFresh' (subs : List SubObj) : WSt := ⟨⟨[], 0, []⟩, subs⟩
+
 def stepLine (s : DState) (line : String) : DState × String :=
   let bad := (s, "bad-op")
   match words line with
@@ -77,6 +105,18 @@ def stepLine (s : DState) (line : String) : DState × String :=
     match n.toNat? with
     | some n => ({ stack := [⟨keysOnly p, profileOf p, n, 1, ⟨[], 0, []⟩⟩], nextMat := 2 }, "ok")
     | none => bad
+  | ["wnew", k, n, subs] =>
+    match kindOf k, n.toNat? with
+    | some k, some n => ({ s with wobj := some (k, n, wFresh' (parseSubs subs)) }, "ok")
+    | _, _ => bad
+  | "wq" :: a :: b :: c :: d :: tgt :: rest =>
+    match parseSettings a b c d, s.wobj with
+    | some σ, some (k, n, w) =>
+      let (q, _) := parseQuery rest
+      let wq : WQuery := if tgt = "self" then .self q else .sub ((tgt.drop 3).toNat?.getD 0 + 2) q
+      let r := wStep k σ n 1 wq w
+      ({ s with wobj := some (k, n, r.1) }, showW r.1)
+    | _, _ => bad
   | ["back"] =>
     match s.stack with
     | _ :: t@(_ :: _) => ({ s with stack := t }, "ok")
@@ -111,4 +151,4 @@ def stepLine (s : DState) (line : String) : DState × String :=
   | _ => bad
 
 def main : IO Unit := do
-  loop (← IO.getStdin) (⟨[], 1⟩ : DState) stepLine
+  loop (← IO.getStdin) ({ stack := [], nextMat := 1 } : DState) stepLine
